@@ -187,10 +187,13 @@ def products(tier):
            X(I(0, 1, var="y"), I01), X(SQ, I(0, 2, var="y")), X(Cut(SQ, G_CMOVE, contained=True), IT),
            X(I_GROW, I(0, 1, var="s")), X(I_STEEP, IT),
            X(I_STEEP, X(I(0, 1, var="s"), IT)),      # first factor depends on only ONE of the second factor's variables
-           X(M_TET, IT)]
+           X(M_TET, IT),
+           # products that still need an EXTERNAL parameter: in the dependent first factor / in the second factor
+           X(C_ST, I(0, 1, var="s")), X(I_STEEP, I(0, aff(0.5, s=0.5), var="t"))]
     if tier == "thorough":
         out += [X(TR_GROW, IT), X(S_GROW, IT), X(U(SQ_MOVE, G_C), IT), X(Tr(SQ, [aff(0, t=1), 0]), IT),
                 X(Rot(SQ, aff(0, t=1)), IT), X(X(I(0, 1, var="y"), I01), IT), X(C_ST, X(I(0, 1, var="s"), IT)),
+                X(I_GROW, I(aff(0, s=1), aff(1, s=1), var="t")),
                 X(B(C_GROW), IT), X(C_GROW, B(IT)), X(N(C_GROW, SQ), IT)]
     return out
 
